@@ -8,7 +8,10 @@
 (*     length >= 2 and alias cycles are never seen.  Pinned by the repository's suite       *)
 (*     (TestSchema_Example expects an Example for @deep_recursion <-> @nested): recorded.   *)
 EXTENDS Integers, Sequences, FiniteSets, Sem
-CONSTANT LookupInOwnTypeTable
+CONSTANTS LookupInOwnTypeTable, KeysOptDefault, OptionalOnlyByRule
+\* OptionalOnlyByRule = the tree before 4f627f9: only an explicit optional rule made a property optional for this search, the
+\* KeysAreOptionalByDefault option was not looked at
+PropOptional(p) == IF HasRule(p.n, "optional") THEN RuleV(p.n, "optional").bv ELSE (KeysOptDefault /\ ~OptionalOnlyByRule)
 
 \* names a mixed-value node offers (shortcut names, or the single name of a type-rule reference)
 NodeTypeNames(n) == IF n.t = "ref" THEN n.names ELSE <<>>
@@ -26,7 +29,7 @@ Detect(env, n, table, visited, mesh) ==
                                          IF LookupInOwnTypeTable /\ ~mesh THEN {} ELSE table,
                                          visited \cup {names[i]}, mesh)}
               IN names # <<>> /\ Cardinality(errs) = Len(names)
-         [] n.t = "obj" -> \E i \in DOMAIN n.props : Detect(env, n.props[i].n, table, visited, mesh)
+         [] n.t = "obj" -> \E i \in DOMAIN n.props : ~PropOptional(n.props[i]) /\ Detect(env, n.props[i].n, table, visited, mesh)
          [] OTHER -> FALSE                                   \* arrays, literals
 TypeNamesOf(env) == {env.types[i].name : i \in DOMAIN env.types}
 ImplRejectsRecursion(env, root, mesh) == Detect(env, root, TypeNamesOf(env), {"root"}, mesh)
